@@ -116,7 +116,7 @@ def gen_atom(rng):
             return w, 'id:' + w
 
 
-def gen_source(rng, n):
+def gen_source(rng, n, newline='\n'):
     """source text and the expected (start, end, line, desc) list; char offsets"""
     src = ''
     line = 1
@@ -129,9 +129,9 @@ def gen_source(rng, n):
         elif r < 0.7:
             sep = '\t'
         elif r < 0.88:
-            sep = rng.choice(['', ' ']) + '\n' + rng.choice(['', '\t', '  '])
+            sep = rng.choice(['', ' ']) + newline + rng.choice(['', '\t', '  '])
         else:
-            sep = ' // ' + rng.choice(['c', '"x', "it's", 'é 0x', '']) + '\n'
+            sep = ' // ' + rng.choice(['c', '"x', "it's", 'é 0x', '']) + newline
         if src or rng.random() < 0.5:
             src += sep
             line += sep.count('\n')
@@ -139,7 +139,7 @@ def gen_source(rng, n):
         exp.append((len(src), len(src) + len(text), line, desc))
         src += text
     if rng.random() < 0.5:
-        src += rng.choice(['\n', ' ', ' // end'])
+        src += rng.choice([newline, ' ', ' // end'])
     return src, exp
 
 
@@ -166,7 +166,7 @@ def mismatch(src, exp, r):
     return None
 
 
-def search(deadline, rng):
+def search(deadline, rng, newline='\n'):
     if replayrun.build()[0] is None:
         return None
     import concurrent.futures as cf
@@ -179,7 +179,7 @@ def search(deadline, rng):
 
     with cf.ThreadPoolExecutor(12) as ex:
         while time.time() < deadline:
-            cases = [gen_source(rng, rng.choice([1, 1, 2, 3, 6])) for _ in range(96)]
+            cases = [gen_source(rng, rng.choice([1, 1, 2, 3, 6]), newline) for _ in range(96)]
             for hit in ex.map(one, cases):
                 if hit:
                     src, exp, r, m = hit
